@@ -20,8 +20,19 @@ def run_generic(ctx, monitor, n, nsteps=30, **kw):
     traces = []
     for k in range(n):
         # every fifth schedule is built around the life cycle of the connection (close / loss / reset, connect again)
-        sched = hostdrive.lifecycle_schedule(r, kw.get("kinds", "GPZDWBEF")) if k % 5 == 4 else hostdrive.gen_schedule(r, nsteps, **kw)
-        tr = hostdrive.run_schedule(r, sched)
+        max_live = 3
+        if k % 5 == 4:
+            sched = hostdrive.lifecycle_schedule(r, kw.get("kinds", "GPZDWBEF"))
+        elif k % 40 == 7:
+            # one long history per 40 schedules: ~300 requests in a row (counters wrap, tables fill)
+            sched = hostdrive.long_schedule(r, 300, kw.get("kinds", "GPZDWBEF"))
+        elif k % 10 == 3:
+            # many requests at once
+            max_live = 12
+            sched = hostdrive.gen_schedule(r, 60, weights=dict(start=8, ack=8, rsp=4, tick=1.5, cancel=1, badack=0.5, close=0.02, lost=0.02))
+        else:
+            sched = hostdrive.gen_schedule(r, nsteps, **kw)
+        tr = hostdrive.run_schedule(r, sched, max_live=max_live)
         labels = set(l.split(":")[0] for l in tr.labels)
         multi = sum(1 for q in tr.reqs.values() if q["nfrags"] > 1)
         ctx.case(tuple(tr.tokens), nontrivial=len(tr.reqs) >= 2 and len(labels) >= 4,
